@@ -7,7 +7,7 @@ Usage: verify_seed.py [--round 2] /tmp/seed/C03-a [...]   (--round N files C03-a
 import json, os, shutil, subprocess, sys, tempfile
 
 HERE = os.path.dirname(os.path.dirname(os.path.abspath(__file__)))
-ENV = dict(os.environ, GOFLAGS="-mod=mod", GOPROXY="off")
+ENV = dict(os.environ, GOFLAGS="-mod=mod -trimpath", GOPROXY="off")
 for k in ("GOWORK", "GOSUMDB", "GOTOOLCHAIN"):
     ENV.pop(k, None)
 
